@@ -29,6 +29,7 @@ var c15Alphabet = []c15Group{
 	{"no-index-name", "either", 2},
 	{"bad-index-name", "either", 2}, // a name the index-name rules reject (path separator)
 	{"ts-only-doc", "either", 2},    // a document with no field besides its timestamp, into an index of its own
+	{"index-via-alias", "good", 2},  // addressed through an alias of an index that exists but has received nothing yet
 	{"index-no-doc", "bad", 1},      // only meaningful as the last group
 }
 
@@ -51,6 +52,8 @@ func c15Build(j *c15Job, hist string, ia, ib string) (body string, docIDs []stri
 			sb.WriteString(`{"index":{"_index":"` + ia + `"}}` + "\n" + doc + "\n")
 		case "index-b":
 			sb.WriteString(`{"index":{"_index":"` + ib + `","_id":"x` + id + `"}}` + "\n" + doc + "\n")
+		case "index-via-alias":
+			sb.WriteString(`{"index":{"_index":"` + ia + `al"}}` + "\n" + doc + "\n")
 		case "create-a":
 			sb.WriteString(`{"create":{"_index":"` + ia + `"}}` + "\n" + doc + "\n")
 		case "invalid-doc":
@@ -121,6 +124,23 @@ func c15Run(w *kernel.Worker, j *c15Job, rep *kernel.Report) (*c15Result, error)
 		body, ids = c15Build(j2, hist, ia, ib)
 		j = &c15Job{N: j.N, Kinds: j2.Kinds, Newline: true}
 	}
+	for _, k := range j.Kinds {
+		if k == "index-via-alias" {
+			// an index created through the API (no document yet, so no open segment) and an alias for it
+			var hr httpRes
+			if err := w.Call("call", map[string]interface{}{"handler": "putIndex", "org": 0, "method": "PUT", "body": "{}", "userValues": map[string]string{"indexName": ia + "w"}}, &hr); err != nil {
+				return nil, err
+			}
+			body := fmt.Sprintf(`{"actions":[{"add":{"index":"%s","alias":"%s"}}]}`, ia+"w", ia+"al")
+			if err := w.Call("call", map[string]interface{}{"handler": "postAliases", "org": 0, "method": "POST", "body": body}, &hr); err != nil {
+				return nil, err
+			}
+			if hr.Status != 200 {
+				return &c15Result{"C15/harness-alias-setup", fmt.Sprintf("alias set-up: http %d %s", hr.Status, trunc(hr.Body, 200))}, nil
+			}
+			break
+		}
+	}
 	died := func(err error) (*c15Result, error) {
 		if d, ok := err.(*kernel.Died); ok {
 			if d.Timeout {
@@ -153,6 +173,7 @@ func c15Run(w *kernel.Worker, j *c15Job, rep *kernel.Report) (*c15Result, error)
 	defer func() {
 		_ = delIndex(w, 0, ia)
 		_ = delIndex(w, 0, ia+"t")
+		_ = delIndex(w, 0, ia+"w")
 		_ = delIndex(w, 0, ib)
 		if storeFull {
 			_ = delIndex(w, 0, fmt.Sprintf("c15fill%d-*", n))
